@@ -46,11 +46,59 @@ def long_sources(r, count):
     return out
 
 
+def index_container_history(ld, r, count):
+    """a selection ds[idx] keeps its own copy of the index container: whatever the caller does with idx afterwards (the
+    permutation buffer that is reshuffled for the next epoch ...) the dataset built from it iterates as before"""
+    import numpy as np
+    fails = []
+    for _ in range(count):
+        n = r.randint(2, 8)
+        keyed = r.random() < 0.5
+        ds = ld.new({f'k{i}': 10 + i for i in range(n)} if keyed else [10 + i for i in range(n)])
+        form = r.choice(['int64', 'int64', 'intp', 'int32', 'list', 'bool', 'keys', 'int64_2d'])
+        pos = [r.randrange(n) for _ in range(r.randint(1, n))]
+        if form in ('int64', 'intp', 'int32'): idx = np.array(pos, dtype=form)
+        elif form == 'int64_2d': idx = np.array([pos], dtype=np.int64)
+        elif form == 'list': idx = list(pos)
+        elif form == 'bool':
+            idx = np.zeros(n, dtype=bool)
+            idx[pos] = True
+        else:
+            if not keyed:
+                continue
+            idx = [f'k{i}' for i in pos]
+        try:
+            sel = ds[idx]
+        except Exception:
+            continue                     # this spelling of a selection is refused (e.g. a 2-d array)
+        try:
+            stack = r.choice(['plain', 'map', 'items', 'batch'])
+            top = sel if stack == 'plain' else sel.map(lambda x: x) if stack == 'map' else sel.items() if stack == 'items' and keyed else sel.batch(2) if stack == 'batch' else sel
+            before = ([repr(x) for x in top], len(top))
+            if isinstance(idx, list):
+                idx.reverse(); idx.append(idx[0])
+            elif idx.dtype == bool:
+                idx[:] = ~idx
+            else:
+                idx[...] = (idx + 1) % n
+            after = ([repr(x) for x in top], len(top))
+        except Exception as e:
+            fails.append(dict(kind='history', summary=f'selection by a {form} index container raised {type(e).__name__}: {e}'[:300], config=dict(n=n, form=form, pos=pos)))
+            continue
+        if before != after:
+            fails.append(dict(kind='history', summary=f'new(.., n={n})[{form} index {pos}] ({stack}): after the caller changed its index container the dataset iterates {after[0]} instead of {before[0]}'[:700],
+                              config=dict(n=n, form=form, pos=pos, stack=stack)))
+    return fails
+
+
 def run(tier):
     r = common.rng_for('C01-long')
     extra = long_sources(r, 60 if tier == 'quick' else 1500)
     res = model_a.run_a('C01', tier, WANT | {'index'}, n_quick=1500, n_thorough=40000, extra_nodes=extra)
     res['coverage']['long_source_programs'] = len(extra)
+    ld = common.import_impl()
+    res['failures'] += index_container_history(ld, common.rng_for('C01-idx'), 150 if tier == 'quick' else 2500)
+    res['coverage']['index_container_histories'] = 150 if tier == 'quick' else 2500
     return res
 
 
